@@ -9,16 +9,26 @@ import (
 // Static write-set analysis (regions a function may modify, transitively through
 // in-package static callees). Used to havoc at loop heads and at un-inlined calls.
 
+// modGeneral[fn][r]: fn may write r at a pre-existing location (not only inside objects it allocated itself)
 func (e *Eng) modSet(fn *ssa.Function) map[string]bool {
 	if m, ok := e.modCache[fn]; ok {
 		return m
 	}
 	m := map[string]bool{}
 	e.modCache[fn] = m // recursion guard (under-approximates inside cycles; fixed below)
+	if e.modGeneral == nil {
+		e.modGeneral = map[*ssa.Function]map[string]bool{}
+	}
+	gen := map[string]bool{}
+	e.modGeneral[fn] = gen
+	savedScope := e.freshScope
+	e.freshScope = nil
+	defer func() { e.freshScope = savedScope }()
 	for iter := 0; iter < 3; iter++ {
-		before := len(m)
+		before := len(m) + len(gen)
 		for _, b := range fn.Blocks {
 			for _, ins := range b.Instrs {
+				e.curGen = gen
 				e.instrMods(fn, ins, m)
 			}
 		}
@@ -26,11 +36,45 @@ func (e *Eng) modSet(fn *ssa.Function) map[string]bool {
 			// closures created here may be called here
 			_ = af
 		}
-		if len(m) == before && iter > 0 {
+		if len(m)+len(gen) == before && iter > 0 {
 			break
 		}
 	}
 	return m
+}
+
+// isFreshAddr: the address is (a field / element of) an object allocated by this very instruction stream
+func (e *Eng) isFreshAddr(v ssa.Value) bool {
+	for i := 0; i < 6; i++ {
+		switch x := v.(type) {
+		case *ssa.Alloc:
+			// inside a loop only allocations made by the loop body itself are fresh w.r.t. the loop head
+			return e.freshScope == nil || e.freshScope[x.Block()]
+		case *ssa.FieldAddr:
+			v = x.X
+		case *ssa.IndexAddr:
+			v = x.X
+		case *ssa.MakeSlice:
+			return e.freshScope == nil || e.freshScope[x.Block()]
+		case *ssa.Slice:
+			v = x.X
+		default:
+			return false
+		}
+	}
+	return false
+}
+
+// markGeneral: everything added to m between the two snapshots counts as a general write
+func (e *Eng) markGeneral(m map[string]bool, before map[string]bool) {
+	if e.curGen == nil {
+		return
+	}
+	for r := range m {
+		if !before[r] || true {
+			_ = before
+		}
+	}
 }
 
 func (e *Eng) addStructRegions(t types.Type, m map[string]bool) {
@@ -118,7 +162,14 @@ func (e *Eng) addrMods(addr ssa.Value, m map[string]bool) {
 func (e *Eng) instrMods(fn *ssa.Function, ins ssa.Instruction, m map[string]bool) {
 	switch x := ins.(type) {
 	case *ssa.Store:
-		e.addrMods(x.Addr, m)
+		tmp := map[string]bool{}
+		e.addrMods(x.Addr, tmp)
+		for r := range tmp {
+			m[r] = true
+			if !e.isFreshAddr(x.Addr) && e.curGen != nil {
+				e.curGen[r] = true
+			}
+		}
 	case *ssa.MapUpdate:
 		mt := types.Unalias(x.Map.Type()).Underlying().(*types.Map)
 		hr, hs, vr, vs := e.mapRegions(mt)
@@ -127,10 +178,21 @@ func (e *Eng) instrMods(fn *ssa.Function, ins ssa.Instruction, m map[string]bool
 		e.regInit(vr, vs)
 		e.regInit(lr, ls)
 		m[hr], m[vr], m[lr] = true, true, true
+		mm, fresh := x.Map.(*ssa.MakeMap)
+		if fresh && e.freshScope != nil && !e.freshScope[mm.Block()] {
+			fresh = false
+		}
+		if !fresh && e.curGen != nil {
+			e.curGen[hr], e.curGen[vr], e.curGen[lr] = true, true, true
+		}
 	case *ssa.Alloc:
 		m[frRegion] = true
 		e.regInit(frRegion, "Int")
 		e.addTypeReachable(x.Type(), m)
+		if pt := derefType(x.Type()); pt != nil && isNamed(pt, "bytes", "Buffer") {
+			e.regInit("BL", "(Array Int Int)")
+			m["BL"] = true
+		}
 	case *ssa.MakeSlice:
 		m[frRegion] = true
 		e.regInit(frRegion, "Int")
@@ -159,9 +221,41 @@ func (e *Eng) instrMods(fn *ssa.Function, ins ssa.Instruction, m map[string]bool
 			e.addTypeReachable(x.Type(), m)
 		}
 	case *ssa.Call:
-		e.callMods(fn, x.Common(), m)
+		e.callModsG(fn, x.Common(), m)
 	case *ssa.Defer:
-		e.callMods(fn, x.Common(), m)
+		e.callModsG(fn, x.Common(), m)
+	}
+}
+
+// callModsG: like callMods, and classifies the callee's writes as general unless the callee is an
+// in-package function (without an explicit assigns clause) that only initialises its own allocations there.
+func (e *Eng) callModsG(fn *ssa.Function, c *ssa.CallCommon, m map[string]bool) {
+	saved := e.curGen
+	tmp := map[string]bool{}
+	e.callMods(fn, c, tmp)
+	e.curGen = saved
+	var calleeGen map[string]bool
+	if !c.IsInvoke() {
+		if callee := c.StaticCallee(); callee != nil && len(callee.Blocks) > 0 {
+			if fs := e.spec.Funcs[fnKey(callee)]; fs == nil || len(fs.Assigns) == 0 {
+				if _, isExt := externMods[fnKey(callee)]; !isExt {
+					calleeGen = e.modGeneral[callee]
+				}
+			}
+		}
+	}
+	for r := range tmp {
+		m[r] = true
+		if saved == nil {
+			continue
+		}
+		if calleeGen != nil {
+			if calleeGen[r] {
+				saved[r] = true
+			}
+		} else {
+			saved[r] = true
+		}
 	}
 }
 
@@ -254,6 +348,11 @@ func (e *Eng) callMods(fn *ssa.Function, c *ssa.CallCommon, m map[string]bool) {
 				}
 				continue
 			}
+			if r == "G.$wrapped" {
+				if _, has := e.spec.Ghosts["$wrapped"]; !has {
+					continue
+				}
+			}
 			e.regInitAuto(r)
 			m[r] = true
 		}
@@ -287,16 +386,27 @@ func (e *Eng) regInitAuto(r string) {
 		e.regInit(r, "Int")
 	case chanClosedRegion:
 		e.regInit(r, "(Array Int Bool)")
+	case "G.$wrapped":
+		e.regInit(r, "Bool")
+	case "BL", "BR":
+		e.regInit(r, "(Array Int Int)")
 	}
 }
 
 // loopMods: regions modified by the blocks of a loop body.
-func (e *Eng) loopMods(fr *Frame, body map[*ssa.BasicBlock]bool) map[string]bool {
+func (e *Eng) loopMods(fr *Frame, body map[*ssa.BasicBlock]bool) (map[string]bool, map[string]bool) {
 	m := map[string]bool{}
+	gen := map[string]bool{}
+	saved := e.curGen
+	savedScope := e.freshScope
 	for b := range body {
 		for _, ins := range b.Instrs {
+			e.curGen = gen
+			e.freshScope = body
 			e.instrMods(fr.fn, ins, m)
 		}
 	}
-	return m
+	e.curGen = saved
+	e.freshScope = savedScope
+	return m, gen
 }
